@@ -398,6 +398,7 @@ type worker struct {
 	rep      sink
 	evals    int64
 	distinct int64
+	pruned   int64 // chains not extended because their kind was already lost (only when a violation is reported)
 	extra    int64 // R5: d recognised as a kind e was not recognised as (not a violation)
 	outcomes map[outcome]int64
 	seen     map[uint64]struct{}
@@ -605,7 +606,14 @@ func (w *worker) evalSingle(family string, v mval, c *chain, verbose bool) (rec 
 			if v.hard != 0 {
 				clause = "context-cause-reclassified"
 			}
-			viol(fmt.Sprintf("wrap:%s:outer=%s:cause=%s:recognised-as=%s", clause, outerCtor(c), causeClass(c), kindName(firstBit(eMask))),
+			as := "no-kind"
+			switch {
+			case eMask&ctxBits != 0:
+				as = "the-other-context-kind"
+			case eMask != 0:
+				as = "a-non-context-kind"
+			}
+			viol(fmt.Sprintf("wrap:%s:outer=%s:cause=%s:recognised-as=%s", clause, outerCtor(c), causeClass(c), as),
 				func() string {
 					return fmt.Sprintf("expected one of the kinds %v, errors.Is recognises %v", maskNames(v.accept), maskNames(eMask))
 				}, nil, nil)
@@ -674,6 +682,14 @@ func (w *worker) evalSingle(family string, v mval, c *chain, verbose bool) (rec 
 
 func first(m uint32, _ int8) uint32 { return m }
 
+func kindNames(l []int) []string {
+	var out []string
+	for _, k := range l {
+		out = append(out, kindName(k))
+	}
+	return out
+}
+
 func maskNames(m uint32) []string {
 	var l []string
 	for i := 0; i < nKinds; i++ {
@@ -688,9 +704,11 @@ func maskNames(m uint32) []string {
 
 type family struct {
 	name      string
+	kinds     []int // kinds of the blocks (nil: all 30 + nil)
 	depth     int
 	mixKinds  bool
 	mixMsgs   bool
+	only      int // when > 0: only chains of exactly this length are evaluated (shorter ones belong to another family entry)
 	firstMsgs []string
 }
 
@@ -724,8 +742,18 @@ func (w *worker) runTask(t task) {
 	}
 	var rec func(cur mval, depth int)
 	rec = func(cur mval, depth int) {
-		if depth > 0 {
-			w.evalSingle(t.fam.name, cur, c, false)
+		if depth > 0 && t.fam.only > 0 && depth < t.fam.only {
+			// evaluated (and, if its kind is lost, reported) by the family entry that owns this length
+			if m, _ := recognised(cur.err); m&cur.accept == 0 && !(cur.hard != 0 && (errors.Is(cur.err, context.Canceled) || errors.Is(cur.err, context.DeadlineExceeded))) {
+				return
+			}
+		} else if depth > 0 {
+			if w.evalSingle(t.fam.name, cur, c, false) < 0 {
+				// the kind is already lost here: what is built on top of this error inherits the loss and would only
+				// repeat the same violation under other signatures — the shortest chain is the counterexample
+				w.pruned++
+				return
+			}
 			node++
 			if sampleEvery > 0 && node%sampleEvery == 0 && node <= 2*sampleEvery {
 				sp := c.spec(t.fam.name)
@@ -799,24 +827,23 @@ func (w *worker) evalJoin(elems []*poolElem, verbose bool) {
 			return sp
 		})
 	}
-	shape := func(i int) string { return fmt.Sprintf("n=%d:elem=%s", len(elems), outerOf(elems[i].sp)) }
 	defer func() {
 		if p := recover(); p != nil {
-			viol(fmt.Sprintf("panic:join:n=%d", len(elems)), fmt.Sprintf("panic: %v", p), nil, nil, nil)
+			viol("panic:join", fmt.Sprintf("panic: %v", p), nil, nil, nil)
 		}
 	}()
 	e := errors.Join(errs...)
 	eMask, eN := recognised(e)
 	out := outcome{Family: "J", NKindsE: eN, Want: int8(len(elems))}
-	for i, p := range elems {
+	for _, p := range elems {
 		if eMask&(1<<uint(p.rec)) == 0 || !ce.Any(e, kinds[p.rec]) {
-			viol("join:kind-not-recognised:"+shape(i)+":want="+kindName(p.rec), "the join is not recognised as the kind of one of its elements", e, nil, nil)
+			viol("join:kind-not-recognised:want="+kindName(p.rec), "the join is not recognised as the kind of one of its elements", e, nil, nil)
 			return
 		}
 	}
 	ser, serr := ce.SerialiseError(e)
 	if serr != nil {
-		viol(fmt.Sprintf("join:serialise-failed:n=%d", len(elems)), "SerialiseError: "+serr.Error(), e, ser, nil)
+		viol("join:serialise-failed", "SerialiseError: "+serr.Error(), e, ser, nil)
 		return
 	}
 	d, derr := ce.DeserialiseError(ser)
@@ -826,7 +853,7 @@ func (w *worker) evalJoin(elems []*poolElem, verbose bool) {
 	if derr != nil || d == nil {
 		out.Got = -2
 		w.outcomes[out]++
-		viol(fmt.Sprintf("join:no-error-back:n=%d", len(elems)), fmt.Sprintf("DeserialiseError returned (%v, %v)", d, derr), e, ser, d)
+		viol("join:no-error-back", fmt.Sprintf("DeserialiseError returned (%v, %v)", d, derr), e, ser, d)
 		return
 	}
 	dMask, dN := recognised(d)
@@ -834,11 +861,11 @@ func (w *worker) evalJoin(elems []*poolElem, verbose bool) {
 	if dMask&^eMask != 0 {
 		w.extra++
 	}
-	for i, p := range elems {
+	for _, p := range elems {
 		if dMask&(1<<uint(p.rec)) == 0 || !ce.Any(d, kinds[p.rec]) {
 			out.Got = -1
 			w.outcomes[out]++
-			viol("join:roundtrip-kind-lost:"+shape(i)+":want="+kindName(p.rec), "a kind of the join is not recognised after the round trip", e, ser, d)
+			viol("join:roundtrip-kind-lost:want="+kindName(p.rec), "a kind of the join is not recognised after the round trip", e, ser, d)
 			return
 		}
 	}
@@ -857,13 +884,6 @@ func (w *worker) evalJoin(elems []*poolElem, verbose bool) {
 		w.seen[key] = struct{}{}
 		w.distinct++
 	}
-}
-
-func outerOf(s spec) string {
-	if len(s.Steps) == 0 {
-		return "sentinel"
-	}
-	return s.Steps[len(s.Steps)-1].Ctor
 }
 
 // pools of join elements. Every element is a single error built with the library's constructors.
@@ -946,16 +966,30 @@ func TestC11(t *testing.T) {
 	if thorough {
 		L, L2 = 4, 3
 	}
+	// kinds that matter to the mechanism (context kinds, "no kind", kinds whose text is part of another kind's text)
+	f3Kinds := []int{idxTimeout, idxCancelled, kNil, idxUnknown, kindIndex(ce.ErrNotFound), kindIndex(ce.ErrInvalid), kindIndex(ce.ErrInvalidDestination),
+		kindIndex(ce.ErrNoLogger), kindIndex(ce.ErrNoLoggerSource), kindIndex(ce.ErrWarning)}
 	fams := []*family{
 		{name: "F1", depth: L, firstMsgs: fullMsgs},
 		{name: "F2", depth: L2, mixKinds: true, firstMsgs: f2Msgs},
-		{name: "F3", depth: L2, mixMsgs: true, firstMsgs: coreMsgs},
+		{name: "F3", depth: 2, mixMsgs: true, firstMsgs: coreMsgs},
+	}
+	f3Bound := "1..2, every step its own message (core set), one kind per chain (all 31)"
+	if thorough {
+		fams = append(fams, &family{name: "F3", depth: 3, mixMsgs: true, firstMsgs: coreMsgs, kinds: f3Kinds, only: 3})
+		f3Bound += "; length 3 for the kinds " + fmt.Sprint(kindNames(f3Kinds))
 	}
 	type job func(w *worker)
 	var jobs []job
 	for _, f := range fams {
 		f := f
-		for k := 0; k <= kNil; k++ {
+		ks := f.kinds
+		if ks == nil {
+			for k := 0; k <= kNil; k++ {
+				ks = append(ks, k)
+			}
+		}
+		for _, k := range ks {
 			for _, ms := range f.firstMsgs {
 				for seed := 0; seed < nSeeds; seed++ {
 					tk := task{fam: f, k: k, m: msgIndex(ms), seed: seed}
@@ -1018,12 +1052,13 @@ func TestC11(t *testing.T) {
 	// merge
 	total := map[string]int64{}
 	outc := map[outcome]int64{}
-	var evals, distinct, extra int64
+	var evals, distinct, extra, pruned int64
 	var samples []any
 	for _, w := range append(workers, main) {
 		evals += w.evals
 		distinct += w.distinct
 		extra += w.extra
+		pruned += w.pruned
 		for o, n := range w.outcomes {
 			outc[o] += n
 			total[o.Family] += n
@@ -1092,6 +1127,7 @@ func TestC11(t *testing.T) {
 	rep.Coverage["outcomes"] = ocl
 	rep.Coverage["converter_outcomes"] = cv.table
 	rep.Coverage["extra_kinds_after_roundtrip"] = extra
+	rep.Coverage["chains_not_extended_because_kind_already_lost"] = pruned
 	rep.Coverage["samples"] = samples
 	rep.Coverage["exhaustive"] = true
 	rep.Coverage["bound"] = map[string]any{
@@ -1102,7 +1138,7 @@ func TestC11(t *testing.T) {
 		"messages_core":         coreMsgs,
 		"F1_chain_length":       fmt.Sprintf("1..%d, one kind and one message (full set) per chain", L),
 		"F2_chain_length":       fmt.Sprintf("1..%d, every step its own kind, message in %q", L2, f2Msgs),
-		"F3_chain_length":       fmt.Sprintf("1..%d, every step its own message (core set), one kind per chain", L2),
+		"F3_chain_length":       f3Bound,
 		"joins":                 joinBound,
 		"converter_values":      cv.values,
 		"converter_value_forms": formNames,
